@@ -48,7 +48,41 @@ def rename_tree(tree):
     handle(tree.body)
     return tree
 
-MODES = ('unparse', 'rename', 'shift', 'swapif', 'flipcmp', 'kwargs', 'tempret')
+MODES = ('unparse', 'rename', 'shift', 'swapif', 'flipcmp', 'kwargs', 'tempret', 'reorder')
+
+
+class Reorder(ast.NodeTransformer):
+    """swap adjacent independent simple assignments `a = e1; b = e2` (call-free right-hand sides, plain name targets,
+    neither reads or writes the other's target)"""
+    @staticmethod
+    def _simple(s_):
+        return isinstance(s_, ast.Assign) and len(s_.targets) == 1 and isinstance(s_.targets[0], ast.Name) and \
+            not any(isinstance(x, (ast.Call, ast.Yield, ast.YieldFrom, ast.Await, ast.NamedExpr)) for x in ast.walk(s_.value))
+
+    def _block(self, stmts):
+        out = list(stmts)
+        i = 0
+        while i < len(out) - 1:
+            a, b = out[i], out[i + 1]
+            if self._simple(a) and self._simple(b):
+                ta, tb = a.targets[0].id, b.targets[0].id
+                ra = {x.id for x in ast.walk(a.value) if isinstance(x, ast.Name)}
+                rb = {x.id for x in ast.walk(b.value) if isinstance(x, ast.Name)}
+                if ta != tb and ta not in rb and tb not in ra:
+                    out[i], out[i + 1] = b, a
+                    i += 2
+                    continue
+            i += 1
+        return out
+
+    def generic_visit(self, node):
+        super().generic_visit(node)
+        for fld in ('body', 'orelse', 'finalbody'):
+            v = getattr(node, fld, None)
+            if isinstance(v, list) and v and isinstance(v[0], ast.stmt):
+                setattr(node, fld, self._block(v))
+        return node
+
 
 
 class TempRet(ast.NodeTransformer):
@@ -152,6 +186,8 @@ def make(mode, dst, root=None):
             new = ast.unparse(ast.fix_missing_locations(FlipCmp().visit(ast.parse(src)))) + '\n'
         elif mode == 'tempret':
             new = ast.unparse(ast.fix_missing_locations(TempRet().visit(ast.parse(src)))) + '\n'
+        elif mode == 'reorder':
+            new = ast.unparse(ast.fix_missing_locations(Reorder().visit(ast.parse(src)))) + '\n'
         elif mode == 'kwargs':
             new = ast.unparse(ast.fix_missing_locations(kwargs_tree(ast.parse(src), sigs))) + '\n'
         else:
